@@ -130,6 +130,7 @@ def wellFormed : List String → Bool
   | ["wpl", k, j, value] => (nat? k).isSome && (idx? NC j).isSome && (nat? value).isSome
   | ["rpl", j, value] => (idx? NC j).isSome && (nat? value).isSome
   | ["rpu", j] => (idx? NC j).isSome
+  | ["rr", k, i, j, n] => (nat? k).isSome && (idx? NB i).isSome && (idx? NC j).isSome && (idx? 4294967297 n).isSome
   | ["updb", i, cap, wp] => (idx? NB i).isSome && (optNat? cap).isSome && (optNat? wp).isSome
   | ["tick", dt, blocks, hc] => (nat? dt).isSome && (nat? blocks).isSome && (bit? hc).isSome
   | _ => false
@@ -221,6 +222,21 @@ def stepCore (s : State) (op obs : List String) : State × String :=
                                   else answer "model-ok-impl-failed" s
       | _, _ => (s, "bad-op")
     | _, _ => (s, "bad-op")
+  | ["rr", k, i, j, _n] =>
+    -- read_redeem: `status price [reason]`; the price of the marker is observed, status and reason are the model's own
+    -- (a marker the contract refuses before it looks at any pool — `other:<class>` — is an observation)
+    match obs, nat? k, nat? i, nat? j with
+    | status :: price :: rest, some k, some i, some j =>
+      match (if price.length > 20 then none else price.toNat?) with
+      | none => (s, "bad-op")
+      | some pr =>
+        let otherFail := status = "fail" && (match rest with | r :: _ => r.startsWith "other:" | [] => false)
+        if otherFail || status = "rejected" then answer (" ".intercalate (status :: price :: rest)) s else
+        match ZChain.Storage.step s (.readRedeem k i j pr) with
+        | .ok s' => answer ("ok " ++ price) s'
+        | .error (.fail r) => answer ("fail " ++ price ++ " " ++ r) s
+        | .error (.inadm w) => answer ("inadmissible " ++ w) s
+    | _, _, _, _ => (s, "bad-op")
   | ["rpu", j] =>
     match obs, nat? j with
     | ["ok"], some j =>
